@@ -66,6 +66,11 @@ def cases(rng, tier):
                 u.items.insert(0, isogen.Box("Xtra", [isogen.Raw(b"abc")]))
             exp = tags if handler == "mdir" else {}
             out.append(("s%x_y%d_f%d_%s_h%d" % (subset, year_bin, fullbox, handler, hdlr_first), movie_with(u), exp))
+    for i, ytxt in enumerate((b"", b"+1999", b"02024", b" 2024", b"2024 ", b"4294967296", b"2024-05-17", b"-0", b"+")):
+        out.append(("year_text_%d" % i, movie_with(isogen.udta([isogen.meta([isogen.ilst([isogen.ilst_item(isogen.YEAR, 1, ytxt)])])])), None))
+    for i, (dt, pl) in enumerate(((0, b"\x07\xe8"), (0, b"\0\0\x07\xe8\0"), (21, b"\0\0\x07\xe8"), (13, b"\0\0\x07\xe8"))):
+        out.append(("year_bin_%d" % i, movie_with(isogen.udta([isogen.meta([isogen.ilst([isogen.ilst_item(isogen.YEAR, dt, pl)])])])), None))
+    out.append(("dup_title", movie_with(isogen.udta([isogen.meta([isogen.ilst([isogen.ilst_item(isogen.TITLE, 1, b"first"), isogen.ilst_item(isogen.TITLE, 1, b"second")])])])), None))
     out.append(("no_udta", movie_with(None), {}))
     out.append(("udta_no_meta", movie_with(isogen.udta([isogen.Box("free", [])])), {}))
     out.append(("meta_no_ilst", movie_with(isogen.udta([isogen.meta([])])), {}))
@@ -84,12 +89,18 @@ def check(rep):
     rng = random.Random(rep.seed * 7919 + 18)
     cs = cases(rng, rep.tier)
     fails, ties = [], []
-    stats = {"files": len(cs), "with_tags": sum(1 for c in cs if c[2]), "model_skipped": 0}
+    stats = {"files": len(cs), "with_tags": sum(1 for c in cs if c[2]), "edge_forms": sum(1 for c in cs if c[2] is None), "model_skipped": 0}
     for profile in ("debug", "release"):
         res = readcheck.run_both([{"data": d} for _, d, _ in cs], profile)
         for (label, data, exp), (impl, model) in zip(cs, res):
-            if impl.get("open") != "ok":
+            if impl.get("open") != "ok" and exp is not None:
                 fails.append(("open_%d" % len(fails), {"kind": "input", "what": "reference-encoded movie does not open (%s)" % impl.get("open"), "case": label, "file": data.hex()[:20000]}))
+                continue
+            if exp is None:
+                # edge forms (year text with sign / spaces / overflow, odd binary lengths, duplicates): the model is the reference
+                t = readcheck.correspondence(impl, model)
+                if t and t != "skipped":
+                    ties.append(("model_vs_impl_%s_%d" % (profile, len(ties)), dict(t, kind="correspondence", case=label, profile=profile, file=data.hex()[:20000])))
                 continue
             want = {"title": exp["title"].hex() if "title" in exp else None, "year": exp.get("year"), "poster": exp["poster"].hex() if "poster" in exp else None,
                     "summary": exp["summary"].hex() if "summary" in exp else None}
@@ -117,7 +128,7 @@ def check(rep):
                                  "hdlr before / after ilst (thinned for non-mdir in quick), payload lengths {0, 1, 255, 5000|70000}, shuffled item order, 0-3 unknown items and free boxes "
                                  "interleaved, unknown boxes in udta; plus no udta / udta without meta / meta without ilst / empty ilst; non-trivial = files that carry at least one tag",
                          "input_distribution": stats})
-    rep.coverage["samples"] = [{"case": cs[5][0], "expected": {k: (v if isinstance(v, int) else v.hex()[:40]) for k, v in cs[5][2].items()}}]
+    rep.coverage["samples"] = [{"case": cs[5][0], "expected": {k: (v if isinstance(v, int) else v.hex()[:40]) for k, v in (cs[5][2] or {}).items()}}]
     rep.assumptions = ["the expected values are the abstract tag set the file was rendered from", "harness/run is the compiled /repo library"]
     for name, payload in fails[:5]:
         rep.violation(name, payload)
